@@ -21,6 +21,7 @@ type Actor struct {
 	Votes      map[hotstuff.Hash][]hotstuff.PartialCert
 	Timeouts   []hotstuff.TimeoutMsg
 	ServeFetch bool
+	ServeFrom  hotstuff.View // blocks below this view are withheld from fetches
 	Sent       int
 	cmdSeq     uint64
 	seenQC     map[string]bool
@@ -302,6 +303,7 @@ const (
 	ARelease              // template: a withheld proposal is sent (late) to the replicas selected by B
 	AProposeOldAgg        // template (aggregate QCs): a proposal justified by an OLD, genuine aggregate QC: certificate = that aggregate's high QC, parent = its block
 	AProposeRelabelledSigners // template: the proposal the actor would make honestly, but the block's certificate attributes the genuine signatures to other replicas (same view, hash and signature bytes); with aggregate QCs the genuine aggregate goes along
+	AServeRecentOnly // block fetches are answered only for blocks of the last 1+B%5 views (older ones are withheld)
 	aCount
 )
 
@@ -746,6 +748,12 @@ func (a *Actor) Act(A, B, C int) {
 		}
 	case AToggleFetch:
 		a.ServeFetch = !a.ServeFetch
+		a.ServeFrom = 0
+	case AServeRecentOnly:
+		a.ServeFetch = true
+		if mv, k := a.maxView(), hotstuff.View(1+mod(B, 5)); mv > k {
+			a.ServeFrom = mv - k
+		}
 	}
 }
 
